@@ -950,6 +950,11 @@ def _try_propagate(fnode, blk, i, name):
                 return False
     if len(loads) > 1 and isinstance(value, (ast.List, ast.Dict, ast.Set, ast.ListComp, ast.DictComp, ast.SetComp)):
         return False        # one mutable object shared by several uses
+    ALLOC = {"zeros", "empty", "ones", "full", "zeros_like", "empty_like", "ones_like", "full_like", "array", "asarray", "copy", "deepcopy", "arange",
+             "linspace", "list", "dict", "set", "defaultdict", "deque", "OrderedDict", "Counter", "bytearray", "DataArray", "Dataset", "DataFrame", "Series"}
+    if len(loads) > 1 and any(isinstance(n, ast.Call) and ((isinstance(n.func, ast.Attribute) and n.func.attr in ALLOC) or
+                                                          (isinstance(n.func, ast.Name) and n.func.id in ALLOC)) for n in ast.walk(value)):
+        return False        # a freshly allocated object: its uses share ONE object (it may be filled through a view)
     if len(loads) > 1 and (not _pure_expr(value) or len(ast.unparse(value)) > 100
                            or any(isinstance(n, (ast.ListComp, ast.DictComp, ast.SetComp, ast.GeneratorExp)) for n in ast.walk(value))):
         return False
